@@ -65,6 +65,9 @@ ALL = [
     ('P17-part-related-twice', ['C16'], lambda: docx(p(r('«1»body')), docrels=[('rId2', 'header', 'h.xml'), ('rId3', 'header', 'h.xml')], extra={'word/h.xml': f'<w:hdr {NS}>' + p(r('«2»head')) + '</w:hdr>'})),
     ('P17b-part-related-under-two-types', ['C16'], lambda: docx(p(r('«1»body')), docrels=[('rId2', 'http://example.com/relationships/pageTemplate', 'h.xml'), ('rId3', 'header', 'h.xml')], extra={'word/h.xml': f'<w:hdr {NS}>' + p(r('«2»head')) + '</w:hdr>'})),
     ('P29-cell-without-paragraph-after-text-cell', ['C02', 'C13', 'C01'], lambda: docx(tbl(tr(tc(p(r('«1»top'))), tc(p(r('«2»x')))), tr(tc(p(r('«3»keep me'))), tc('<w:altChunk r:id="rId50"/>', pr='<w:vMerge/><w:gridSpan w:val="2"/>'))))),
+    ('P30-vmerge-cell-ending-in-nested-sdt', ['C13', 'C01', 'C04'], lambda: docx(tbl(tr(tc(p(r('«1»a1')), pr='<w:vMerge w:val="restart"/>'), tc(p(r('«2»b1')))),
+        tr(tc(p(r('«3»x')), '<w:sdt><w:sdtPr/><w:sdtContent>' + p(r('«4»outer control')) + '<w:sdt><w:sdtPr/><w:sdtContent>' + p(r('«5»inner control')) + '</w:sdtContent></w:sdt></w:sdtContent></w:sdt>', pr='<w:vMerge/>'),
+           tc(p(r('«6»b2'))))))),
     # constructs the line-coverage measurement (harness/tools/cover.py) showed no generated case reached
     ('cov-math-text-outside-omath', ['C13', 'C01', 'C03', 'C07'], lambda: docx(p(r('«1»a'), '<m:r><m:t>«2»x&lt;y</m:t></m:r>', r('«3»b', '<w:b/>')))),
     ('cov-two-comments-parts', ['C12', 'C13'], lambda: docx(p('<w:commentRangeStart w:id="0"/>', r('«1»a'), '<w:commentRangeEnd w:id="0"/>', r('«2»b')), comments=COM(0, 'first'),
